@@ -8,3 +8,18 @@ claim('C11', 'proof',
       'are outside the model; composite (face/polyface/polygon) intersections are covered '
       'by correspondence only.',
       'DESIGN.md 4 C11')
+
+claim('C03', 'proof',
+      'Lean 4 invariant + induction over operation lists on the py2lean-generated cache machine; history replay vs fresh objects',
+      'For Polygon2D the memoising getters and every transform/transfer method are regenerated '
+      'from the source into a Lean state machine over all __slots__; Inv (no filled slot is '
+      'stale) is proved for fresh objects and preserved by every operation, hence for every '
+      'history of every length (read_after_history). The generated machine is tied to the code '
+      'slot-for-slot by the kernel correspondence. For Polyline2D/3D, Mesh2D/3D, Face3D and '
+      'Polyface3D the same statement is decided by exhaustive short + sampled long history '
+      'replay against fresh objects on the real code.',
+      'Trusted: Lean kernel, py2lean, harness. Proved slots: _area, _is_clockwise and the '
+      'clearing of positional slots of Polygon2D; _perimeter/_is_convex/_is_self_intersecting '
+      'and the other six classes are covered by replay only (not proved). Zero-area loops '
+      'are excluded (not valid inputs).',
+      'DESIGN.md 4 C03')
